@@ -517,20 +517,39 @@ func hoverSweep(idx, n int) {
 					wd, rig := startRig(t, map[string]bool{})
 					var sn []string
 					for _, si := range seq {
+						wd.log = append(wd.log, "#"+steps[si].name)
 						steps[si].do(wd)
 						sn = append(sn, steps[si].name)
 					}
-					// close: the terminal loses focus; every widget must end with its hover closed
+					// close: the terminal loses focus; every widget must end with its hover closed, and stay
+					// closed over the next frame
+					wd.log = append(wd.log, "#terminal focus out")
 					rig.Inject("\x1b[O")
+					wd.log = append(wd.log, "#frame")
+					rig.Post(vaxis.Redraw{})
+					rig.Tick()
 					r.Count("hover_cases", 1)
 					bad := ""
 					for _, nm := range names(t.root) {
 						inside := false
+						away := false // the terminal lost focus and the pointer has not been heard of since
 						for _, l := range wd.log {
+							if strings.HasPrefix(l, "#") {
+								switch {
+								case l == "#terminal focus out":
+									away = true
+								case l == "#terminal focus in" || strings.HasPrefix(l, "#motion"):
+									away = false
+								}
+								continue
+							}
 							switch l {
 							case nm + ":enter:target":
 								if inside {
 									bad = fmt.Sprintf("%s received mouse-enter twice without a leave in between", nm)
+								}
+								if away && bad == "" {
+									bad = fmt.Sprintf("%s received mouse-enter while-unfocused: the terminal has lost focus and no pointer event has arrived since", nm)
 								}
 								inside = true
 							case nm + ":leave:target":
@@ -552,7 +571,11 @@ func hoverSweep(idx, n int) {
 						if strings.Contains(strings.Join(sn, " "), "focus in") {
 							fi = "after-terminal-focus-in"
 						}
-						r.Violation("C15|hover|"+strings.Split(bad, " ")[1]+"|"+fi, len(seq), detail{Tree: t.name, Event: strings.Join(sn, " ; ") + " ; terminal focus out", Got: wd.log, Why: bad})
+						kind := strings.Split(bad, " ")[1]
+						if strings.Contains(bad, "while-unfocused") {
+							kind = "enter-while-unfocused"
+						}
+						r.Violation("C15|hover|"+kind+"|"+fi, len(seq), detail{Tree: t.name, Event: strings.Join(sn, " ; ") + " ; terminal focus out ; frame", Got: wd.log, Why: bad})
 					} else {
 						r.Distinct(explore.Hash("hover", t.name, fmt.Sprint(seq)))
 					}
@@ -850,7 +873,7 @@ func main() {
 	n := r.Get("routing_cases") + r.Get("hover_cases") + r.Get("command_cases") + r.Get("notification_cases") + r.Get("relayout_cases")
 	r.Finish(explore.Coverage{
 		States: -1, Transitions: n, Traces: n, Evaluations: n,
-		Rule:       "8 widget trees (1-4 nodes, depth <= 3, disjoint and overlapping siblings with both z orders) on a 6x3 screen with a 5x3 root; routing: every capturer mask x every focus position x every assignment of a consuming phase to at most two nodes x {key (injected as terminal input), custom event}, and a press at every screen cell, each compared with a reference router (capture root-down, target, bubble up, stop at the first consumer; the target's own capture handler left open); hover: every sequence of <= n steps over {pointer motion at 6 points incl. outside the root, terminal focus out/in, frame} followed by a focus-out: per widget enter/leave must alternate starting with enter and end closed; notifications: with every widget consuming MouseEnter/MouseLeave/FocusIn/FocusOut (delivered outside the three phases), after each of 6 notification-raising steps the next key (arriving in the same read) is routed in full, for every capturer mask and focus position; re-layout: a focused leaf drawn alternately under two parents, a key after each frame follows the new ancestor chain, for every capturer mask; focus: every (old, new) pair gets exactly one focus-out and one focus-in; delegation: for every (old, via, new) triple with via answering FocusIn by focusing new, the four notifications in order and the next event targeted at new; commands: Redraw, Refresh, Quit, batches, nested batches each take effect exactly once. All through the real App.Run on a fake console, stepped with virtual frame ticks. distinct = cases that passed",
+		Rule:       "8 widget trees (1-4 nodes, depth <= 3, disjoint and overlapping siblings with both z orders) on a 6x3 screen with a 5x3 root; routing: every capturer mask x every focus position x every assignment of a consuming phase to at most two nodes x {key (injected as terminal input), custom event}, and a press at every screen cell, each compared with a reference router (capture root-down, target, bubble up, stop at the first consumer; the target's own capture handler left open); hover: every sequence of <= n steps over {pointer motion at 6 points incl. outside the root, terminal focus out/in, frame} followed by a focus-out and a frame: per widget enter/leave must alternate starting with enter, end closed, and no enter may arrive between a terminal focus-out and the next pointer or focus-in event; notifications: with every widget consuming MouseEnter/MouseLeave/FocusIn/FocusOut (delivered outside the three phases), after each of 6 notification-raising steps the next key (arriving in the same read) is routed in full, for every capturer mask and focus position; re-layout: a focused leaf drawn alternately under two parents, a key after each frame follows the new ancestor chain, for every capturer mask; focus: every (old, new) pair gets exactly one focus-out and one focus-in; delegation: for every (old, via, new) triple with via answering FocusIn by focusing new, the four notifications in order and the next event targeted at new; commands: Redraw, Refresh, Quit, batches, nested batches each take effect exactly once. All through the real App.Run on a fake console, stepped with virtual frame ticks. distinct = cases that passed",
 		Exhaustive: true,
 		Bounds:     map[string]any{"hover_sequence_len": r.Pick(3, 4)},
 		Assumptions: []string{"whether the focused/target widget's own CaptureEvent runs is not fixed by the property and is accepted either way",
